@@ -121,6 +121,8 @@ def merge_blocks_rule(crate, prop, rule="C05.R7"):
             if fn_matches(t, r"str::<impl str>::(strip_prefix|trim_start_matches|starts_with)") and len(t["args"]) >= 2:
                 c = op_const(t["args"][1]) or {}
                 lit = c.get("str")
+                if lit is None and "DECLARATION_START" in (c.get("uneval") or c.get("dbg") or ""):
+                    lit = "export type "
                 if lit is None:
                     for o in origins(b, op_local(t["args"][1]), identity=[]):
                         if o["kind"] == "const" and o["c"]:
